@@ -70,6 +70,11 @@ CLAIMED = {
             'three _compute_metric formulas equal the textbook definitions over non-empty classes and that no result is infinite; each state is executed on the real objects '
             '(both precisions); 3..12 declared classes and automatic class sets with maxima in every threshold range are compared against exact rationals.',
             'Exact rational definitions; float comparison within 64 eps x cancellation factor; LUT builder memoised.', '6/C04'),
+    'C09': ('TLA+ model of TTestAnalysis.run with the main thread and the two accumulator threads at statement-group granularity (TTest.tla: all interleavings, injected failures, liveness under weak fairness, shared-accumulator variant refuted); '
+            'Welch certificates in exact rationals (TTestCases.tla); every TLC-generated batch-level schedule replayed deterministically on the real TTestAnalysis through a gate preprocess',
+            'TLC proves termination, raises-iff-failed, no torn read of an accumulator, result from all batches of all runs for every interleaving with <= 3 batches per set, 2 runs and a failure at every position; each distinct schedule is '
+            'forced on the real threads (order confirmed by the gate log): result, counts and exception propagation are compared with the exact Welch value; free-running runs with random delays and thread counts.',
+            'Interleavings inside the numba kernel are not controllable (disjoint accumulators shown on the model); sqrt evaluated in Python on exact certificates.', '6/C09'),
     'C10': ('TLA+ model of the code-shaped AES forward/backward expansion loops against the FIPS recurrence (AESKeys.tla, exhaustive over every window and target column), window-recovery lemma (AESRun.tla), DES schedule '
             'from PC-1 / shifts / PC-2 and parity lemmas (DESKeys.tla); outputs of the real key_expansion / key_schedule / inv_key_schedule / get_master_key judged by TLC',
             'TLC checks K = P for every (col_in, col_out) of the three key sizes and that every window of Nk words regenerates the schedule; every real key_expansion output for every window and target, key_schedule and '
